@@ -67,6 +67,19 @@ CHECKS = {
    "schedule-exploring property testing of the wait/eof verdicts (generated scenario + decision stream; verdict soundness and bounded-arrival oracle)",
    "Reader-waits, writer-waits and packet-stream scenarios with a peer that commits and leaves are executed under generated schedules in which wait timeouts fire after 0-3 yields; a 'never'/eof verdict must imply peer gone and insufficient data (checked right after, which is valid because a gone peer cannot add data), all committed data must be read back, and a call that starts after the facts are settled must deliver the verdict.",
    "sequential consistency; timed waits modelled as bounded yields", "DESIGN.md §5 C04"),
+
+ "C05": ("E4 schedule explorer + E5 graph generator", "exploration",
+   "differential + schedule-exploring property testing (generated graph x generated scheduler decisions on the shuttle runtime vs sequential reference executor) + real-thread runs",
+   "Generated graphs (chains, balanced diamonds, merges, rate changers, packet stage) run unmodified under MTGraph with its block threads as coroutines whose every lock/wait/spawn/exit/drop is scheduled by generated bytes (wait timeouts firing at generated moments); run() must return Ok with every sink equal to the sequential reference execution on 4 MB streams; deadlock or fair-schedule non-termination is a violation; 16 (thorough 96) graphs also run on real threads.",
+   "balanced diamonds only; sequential consistency; bounded liveness", "DESIGN.md §5 C05"),
+ "C06": ("E5 graph generator + reference executor", "exploration",
+   "differential property testing (Graph::run on small streams and generated add orders vs sequential reference executor); add-order permutations enumerated for small graphs",
+   "Generated graphs with source lengths around and beyond capacity, 1-4 page streams and generated (for four small chains: all) add orders are run by Graph::run(); on Ok every sink must equal the reference result, so a return with data in flight shows as a strict prefix.",
+   "balanced diamonds only; blocks chunking-invariant (C08)", "DESIGN.md §5 C06"),
+ "C07": ("E4 schedule explorer + E5 graph generator", "exploration",
+   "fault-injecting, schedule-exploring property testing (cancellation at generated scheduling points; failing wrapper block at generated position/call; both runners)",
+   "Both runners execute generated graphs on the shuttle runtime while a canceller task cancels after a generated number of scheduling points, or a wrapper block fails on its k-th call; cancel => run() returns Ok with <= 1 further work() call per block and all MT blocks dropped; fail => run() returns an Err carrying the injected marker; panics, Ok, other errors and non-return are violations.",
+   "bounded liveness; if the failing block never reaches call k nothing is injected", "DESIGN.md §5 C07"),
 }
 
 NOT_YET = {}
@@ -111,6 +124,8 @@ def main():
              "kind_free_text": "plays both neighbours of one block on small streams; generated feed/free/work schedules; per-call observations"},
             {"name": "E4 schedule explorer", "path": "harness/src/sched.rs (+ /repo src/verif.rs shim)", "serves_properties": ["C03", "C04", "C05", "C07"],
              "kind_free_text": "shuttle coroutine runtime with a custom scheduler fed by a proptest-generated decision stream; fair continuation; lock/unlock/wait/notify/spawn/join/sleep/drop are scheduling points"},
+            {"name": "E5 graph generator + reference executor", "path": "harness/src/graphgen.rs", "serves_properties": ["C05", "C06", "C07"],
+             "kind_free_text": "recipe -> graph (built twice), sequential reference executor, wrapper blocks for cancellation/failure accounting"},
             {"name": "E6 OS fault harness", "path": "harness/src/osfault.rs", "serves_properties": ["C17", "C18"],
              "kind_free_text": "/proc readers; the harness binary re-executes itself in child modes (rlimit, mapcount, sink) for rlimits, map-count exhaustion and SIGKILL"},
             {"name": "E3 reference models", "path": "harness/src/refmodel.rs", "serves_properties": ["C10", "C11", "C13", "C14", "C20"],
